@@ -32,7 +32,7 @@ type Elem struct {
 }
 
 type Case struct {
-	Kind  string   `json:"kind"` // stmts | decls | specs | fields | methods | clauses
+	Kind  string   `json:"kind"` // stmts | decls | specs | fields | methods | clauses | comms
 	Elems []Elem   `json:"elems"`
 	Open  []string `json:"open"` // decorations on the opening delimiter (Lbrace / Lparen / Opening): "// o" and / or "\n"
 }
@@ -62,6 +62,10 @@ var kinds = map[string]kindInfo{
 	"clauses": {"package p\n\nfunc f() {\n\tswitch x {", "\t}\n}\n", func(i int) string { return fmt.Sprintf("case %d:", i) }, nil,
 		func(f *dst.File) []dst.Node {
 			return stmts(f.Decls[0].(*dst.FuncDecl).Body.List[0].(*dst.SwitchStmt).Body.List)
+		}},
+	"comms": {"package p\n\nfunc f() {\n\tselect {", "\t}\n}\n", func(i int) string { return fmt.Sprintf("case <-c%d:", i) }, nil,
+		func(f *dst.File) []dst.Node {
+			return stmts(f.Decls[0].(*dst.FuncDecl).Body.List[0].(*dst.SelectStmt).Body.List)
 		}},
 }
 
@@ -202,6 +206,8 @@ func check(t h.TB, c Case) {
 			od = &f.Decls[0].(*dst.GenDecl).Specs[0].(*dst.TypeSpec).Type.(*dst.InterfaceType).Methods.Decs.Opening
 		case "clauses":
 			od = &f.Decls[0].(*dst.FuncDecl).Body.List[0].(*dst.SwitchStmt).Body.Decs.Lbrace
+		case "comms":
+			od = &f.Decls[0].(*dst.FuncDecl).Body.List[0].(*dst.SelectStmt).Body.Decs.Lbrace
 		}
 		if od != nil {
 			od.Replace(c.Open...)
@@ -221,7 +227,7 @@ func check(t h.TB, c Case) {
 	}
 }
 
-var kindNames = []string{"stmts", "decls", "specs", "fields", "methods", "clauses"}
+var kindNames = []string{"stmts", "decls", "specs", "fields", "methods", "clauses", "comms"}
 
 func genCase(t *rapid.T) (Case, bool) {
 	const sub = "Spacing"
@@ -238,7 +244,7 @@ func genCase(t *rapid.T) (Case, bool) {
 				e.Start = append(e.Start, fmt.Sprintf("// s%d", cn))
 			}
 		}
-		if c.Kind != "clauses" {
+		{
 			switch rapid.IntRange(0, 3).Draw(t, "end") {
 			case 1:
 				cn++
@@ -471,9 +477,6 @@ func TestReplay(t *testing.T) {
 					for a1 := 0; a1 < 3; a1++ {
 						for _, s1 := range starts {
 							for _, e0 := range ends {
-								if kind == "clauses" && e0 != nil {
-									continue
-								}
 								if b0 == 0 || a1 == 0 || max(a0, b1) == 0 {
 									continue // outside the premise: the elements are not asked to occupy their own lines
 								}
